@@ -535,6 +535,8 @@ def rules(fx, rep):
     rule_componentwise(fx, rep)
     rule_frobenius(fx, rep)
     rule_misc(fx, rep)
+    from props import c09ring
+    c09ring.rules(fx, rep)
 
 
 def main(tier, t0):
